@@ -281,6 +281,7 @@ def _c_body(di, e):
 # ------------------------------------------------------------------ C10.d naturals / display suffixes through the real pipeline
 ACCS_D = ('', 'n', '#', '##', '-', '--')
 DISPS = ('', 'x', 'X', 'i', 'I', 'j', 'Z', 'y', 'yy', 'Y', 'YY')
+DECS_D = ('L', ']', '_', '[', ';', 'J')
 
 
 OCTS_D = (0, 3, 4, 5, 8)
@@ -307,13 +308,15 @@ def _d_body(c, letter, octave, a):
     disps = DISPS if acc else ('',)            # the grammar reads a display suffix only after an accidental
     kern, ak_want, aek_want = [], [], []
     for i, disp in enumerate(disps):
-        kern.append(f'4{src}{acc}{disp}L')
-        ak_want.append(f'4{exp}{acc}{disp}L')
-        aek_want.append(f'4@{exp}{acc}{disp}\u00b7L')
-        if i in (0, 1 + (letter + octave) % 10):           # the same note inside a chord: without suffix and with one of them
-            kern.append(f'8{other_src} 8{src}{acc}{disp}')
-            ak_want.append(f'8{other_exp} 8{exp}{acc}{disp}')
-            aek_want.append(f'8@{other_exp} 8@{exp}{acc}{disp}')
+        dec = DECS_D[(i + letter) % len(DECS_D)]      # beams, ties (start, continuation, end), fermata: none of them touches the pitch
+        kern.append(f'4{src}{acc}{disp}{dec}')
+        ak_want.append(f'4{exp}{acc}{disp}{dec}')
+        aek_want.append(f'4@{exp}{acc}{disp}\u00b7{dec}')
+        if i in (0, 1 + (letter + octave) % 10):           # the same note inside a chord: without suffix and with one of them; tie marks on both notes
+            tie = ('', ']', '_', '[')[(i + octave) % 4]
+            kern.append(f'8{other_src}{tie} 8{src}{acc}{disp}{tie}')
+            ak_want.append(f'8{other_exp}{tie} 8{exp}{acc}{disp}{tie}')
+            aek_want.append(f'8@{other_exp}\u00b7{tie} 8@{exp}{acc}{disp}\u00b7{tie}' if tie else f'8@{other_exp} 8@{exp}{acc}{disp}')
     text = '\n'.join(['**kern', clef_t] + kern + ['*-']) + '\n'
     doc, errs = kp.loads(text)
     check(not errs, lambda: f'{text!r}: import errors {errs}')
